@@ -321,14 +321,22 @@ int main() {
             int r0 = n->Init();
             int r1 = n->SetReferenceAbund(refp, opt);
             int r2 = n->Renorm(ab);
+            // a second call on another vector with the SAME stored reference (no new SetReferenceAbund)
+            double *ab2 = (double *)malloc(sizeof(double) * NEQUATIONS);
+            for (int i = 0; i < NEQUATIONS; i++) ab2[i] = g_y[i] * (1.0 + 0.37 * (double)((i * 7) % 5));
+            int r3 = n->Renorm(ab2);
             n->Finalize();
             delete n;
-            printf("{\"ev\":\"renorm\",\"init\":%d,\"setref\":%d,\"ret\":%d,", r0, r1, r2); parr("ab", ab, NEQUATIONS);
+            printf("{\"ev\":\"renorm\",\"init\":%d,\"setref\":%d,\"ret\":%d,\"ret2\":%d,", r0, r1, r2, r3); parr("ab", ab, NEQUATIONS);
             printf(",\"elem\":[");
             for (int e = 0; e < NELEMENTS; e++) { if (e) printf(","); pnum(GetElementAbund(ab, e)); }
             printf("],\"hnuclei\":"); pnum(GetHNuclei(ab));
+            printf(","); parr("ab2", ab2, NEQUATIONS);
+            printf(",\"elem2\":[");
+            for (int e = 0; e < NELEMENTS; e++) { if (e) printf(","); pnum(GetElementAbund(ab2, e)); }
+            printf("],\"hnuclei2\":"); pnum(GetHNuclei(ab2));
             printf("}\n");
-            free(ab); free(refp);
+            free(ab); free(ab2); free(refp);
 #else
             printf("{\"ev\":\"renorm\",\"unavailable\":true}\n");
 #endif
